@@ -365,7 +365,7 @@ impl C08 {
         let mut tail: Vec<String> = Vec::new();
         for step in 0..nops {
             if !self.small && rng.below(16) == 0 {
-                if let Some(d) = perturb(&mut ax, rng, &Perturb { areas: false, hooks: true, clone: true }) {
+                if let Some(d) = perturb(&mut ax, rng, &Perturb { areas: false, hooks: true, clone: true, decoy: 0 }) {
                     col.violation_case("neutral-operation-visible", k, d, json!(null));
                     return;
                 }
